@@ -84,3 +84,74 @@ Qed.
 (* non-vacuity is LineFitAFacts.wls_total: the fit returns for every data set with at least
    three points, non-zero weights and a non-degenerate design, so both hypotheses hold together
    (the transformed design is non-degenerate as al <> 0) *)
+
+(* ================= ordinary least squares: the WHOLE result is equivariant =================
+   values (as LineFitAFacts.ols_values_equivariant), the residual sum ssr' = ga^2 ssr, and the
+   covariance matrix of (a', b') is the one the linear map a' = ga a + de - (ga be/al) b,
+   b' = (ga/al) b induces:  u(b') = |ga/al| u(b),
+   u(a')^2 = ga^2 (u(a)^2 - 2 (be/al) cov(a,b) + (be/al)^2 u(b)^2),
+   cov(a',b') = (ga^2/al) (cov(a,b) - (be/al) u(b)^2)          [cov = r u(a) u(b)] *)
+Theorem ols_full_equivariant (l : list pt) al be ga de fs fs' :
+  al <> 0 ->
+  g_line_fit RNum (map px l) (map py l) = Ok fs ->
+  g_line_fit RNum (map (fun p => al * px p + be) l) (map (fun p => ga * py p + de) l) = Ok fs' ->
+  let cab := fs_r fs * fs_au fs * fs_bu fs in
+  fs_ssr fs' = ga * ga * fs_ssr fs /\
+  fs_bu fs' = Rabs (ga / al) * fs_bu fs /\
+  fs_au fs' * fs_au fs' = ga * ga * (fs_au fs * fs_au fs - 2 * (be / al) * cab + (be / al) * (be / al) * (fs_bu fs * fs_bu fs)) /\
+  fs_r fs' * fs_au fs' * fs_bu fs' = ga * ga / al * (cab - be / al * (fs_bu fs * fs_bu fs)).
+Proof.
+  intros Hal H H'. cbv zeta.
+  destruct (ols_values_equivariant l al be ga de fs fs' Hal H H') as (Eb & Ea & _ & _).
+  apply ols_sound in H. destruct H as (l1 & Ex & Ey & Hl3 & _ & _ & Hsol & Hssr & _).
+  apply ols_sound in H'. destruct H' as (l2 & Ex' & Ey' & _ & _ & _ & Hsol' & Hssr' & _).
+  set (T := shift_scale al be ga de).
+  assert (Hx2 : map px l2 = map px (map T l)) by (rewrite <- Ex', map_map; reflexivity).
+  assert (Hy2 : map py l2 = map py (map T l)) by (rewrite <- Ey', map_map; reflexivity).
+  assert (L1 : length l1 = length l) by (rewrite <- (map_length px l1), <- Ex; apply map_length).
+  assert (L2 : length l2 = length l) by (rewrite <- (map_length px l2), Hx2, !map_length; reflexivity).
+  set (n := INR (length l)).
+  assert (A1 : mSx l1 = mSx l) by (apply (Sm_proj_ext (fun x _ => x)); congruence).
+  assert (A3 : mSxx l1 = mSxx l) by (apply (Sm_proj_ext (fun x _ => x * x)); congruence).
+  assert (Hn1 : Sm (fun _ : pt => 1) l = n) by (rewrite Sm_const; unfold n; ring).
+  assert (B1 : mSx l2 = al * mSx l + be * n).
+  { transitivity (Sm (fun p => px p) (map T l)); [exact (Sm_proj_ext (fun x _ => x) l2 (map T l) Hx2 Hy2)|].
+    rewrite Sm_map, <- Hn1. apply Sm_lin2. intros p _. unfold T, shift_scale, px. simpl. ring. }
+  assert (B3 : mSxx l2 = al * al * mSxx l + 2 * al * be * mSx l + be * be * n).
+  { transitivity (Sm (fun p => px p * px p) (map T l)); [exact (Sm_proj_ext (fun x _ => x * x) l2 (map T l) Hx2 Hy2)|].
+    rewrite Sm_map, <- Hn1. apply Sm_lin3. intros p _. unfold T, shift_scale, px. simpl. ring. }
+  (* the residual sum *)
+  assert (S1 : fs_ssr fs = Sm (fun p => wres (fs_ax fs) (fs_bx fs) p * wres (fs_ax fs) (fs_bx fs) p) l).
+  { rewrite Hssr. unfold wres.
+    apply (Sm_proj_ext (fun x y => (y - fs_ax fs - fs_bx fs * x) * (y - fs_ax fs - fs_bx fs * x))); congruence. }
+  assert (S2 : fs_ssr fs' = ga * ga * fs_ssr fs).
+  { rewrite Hssr', S1. unfold wres.
+    transitivity (Sm (fun p => (py p - fs_ax fs' - fs_bx fs' * px p) * (py p - fs_ax fs' - fs_bx fs' * px p)) (map T l)).
+    { exact (Sm_proj_ext (fun x y => (y - fs_ax fs' - fs_bx fs' * x) * (y - fs_ax fs' - fs_bx fs' * x)) l2 (map T l) Hx2 Hy2). }
+    rewrite Sm_map, <- Sm_scal. apply Sm_ext. intros p _. rewrite Ea, Eb.
+    unfold T, shift_scale, px, py. simpl. field. exact Hal. }
+  cbv zeta in Hsol, Hsol'. rewrite L1, A1, A3 in Hsol. rewrite L2, B1, B3 in Hsol'. fold n in Hsol, Hsol'.
+  destruct Hsol as [_ _ Hd Hva Hvb Hcab Hua Hub]. destruct Hsol' as [_ _ Hd' Hva' Hvb' Hcab' Hua' Hub'].
+  set (D := n * mSxx l - mSx l * mSx l) in *.
+  assert (HD' : n * (al * al * mSxx l + 2 * al * be * mSx l + be * be * n)
+                - (al * mSx l + be * n) * (al * mSx l + be * n) = al * al * D) by (unfold D; ring).
+  rewrite HD' in Hva', Hvb', Hcab', Hd'.
+  assert (HD0 : D <> 0) by lra.
+  assert (Hn2 : n - 2 <> 0).
+  { assert (3 <= n) by (unfold n; rewrite <- L1; replace 3 with (INR 3) by (simpl; lra); apply le_INR; exact Hl3). lra. }
+  rewrite S2 in Hva', Hvb', Hcab'.
+  split; [exact S2|].
+  assert (Vb : fs_bu fs' * fs_bu fs' = (ga / al) * (ga / al) * (fs_bu fs * fs_bu fs)).
+  { rewrite Hvb', Hvb. field. repeat split; assumption. }
+  split.
+  { (* non-negative numbers with equal squares *)
+    assert (Hq : 0 <= Rabs (ga / al) * fs_bu fs) by (apply Rmult_le_pos; [apply Rabs_pos|exact Hub]).
+    assert (Hs : fs_bu fs' * fs_bu fs' = (Rabs (ga / al) * fs_bu fs) * (Rabs (ga / al) * fs_bu fs)).
+    { rewrite Vb. replace (Rabs (ga / al) * fs_bu fs * (Rabs (ga / al) * fs_bu fs))
+        with ((Rabs (ga / al) * Rabs (ga / al)) * (fs_bu fs * fs_bu fs)) by ring.
+      rewrite <- Rabs_mult, Rabs_pos_eq by nra. reflexivity. }
+    apply Rsqr_inj; [exact Hub'|exact Hq|exact Hs]. }
+  split.
+  - rewrite Hva', Hva, Hcab, Hvb. field. repeat split; assumption.
+  - rewrite Hcab', Hcab, Hvb. field. repeat split; assumption.
+Qed.
